@@ -74,12 +74,20 @@ def finish(prop, tier, seed, tasks, results, wall, known, extra=None):
     known_lines = []
     unmatched = []
     matched_by = defaultdict(list)
+    # a failing obligation instance is covered by a listed finding only if its name AND the task (call site / configuration) it failed in
+    # match the finding; a name with any uncovered failing instance is reported
     for name in failed_names:
-        m = [f for f in open_f if re.search(f["obligation"], name)]
-        if m:
-            for f in m:
-                matched_by[f["id"]].append(name)
-        else:
+        insts = [o for o in failed if o["name"] == name]
+        covered_all = True
+        for o in insts:
+            m = [f for f in open_f if re.search(f["obligation"], name) and re.search(f.get("task", ""), o.get("task") or "")]
+            if m:
+                for f in m:
+                    if name not in matched_by[f["id"]]:
+                        matched_by[f["id"]].append(name)
+            else:
+                covered_all = False
+        if not covered_all:
             unmatched.append(name)
     finding_status = {}
     for f in open_f:
